@@ -78,6 +78,13 @@ CHECKS.update({
    note="Six KV/SQL divergences on contract-edge histories (duplicate or foreign attempt ids, unknown payments) are listed as known findings; SQL means sqlite; goroutine schedules inside one transaction are not enumerated (every operation but KV InitPayment is one transaction; that boundary is enumerated); concurrent RegisterAttempt on one hash is a documented caller obligation.", ref="§4 C16"),
 })
 
+CHECKS.update({
+ "C10": dict(cat="exploration", engine="bytemut+evid (lnwire in /repo, tlv inside /repo/tlv)",
+   technique="exhaustive byte-level enumeration on the real codecs: all bodies <=2/3 bytes plus every single-byte replacement, truncation, extension, insertion, deletion and BigSize-prefix edit of a deterministic seed corpus (lnwire, crash-isolated GOMAXPROCS=1 workers with exact allocation accounting); all <=3-record TLV streams over structural types x every BigSize form x every order, declared-length lattice to 2^64-1, all primitive decoders and varint forms (tlv), differential against an independent BOLT-1 reference parser and a decode/encode fixpoint oracle",
+   text="Every registered message type and failure code and every tlv entry point is driven through bounded exhaustive input neighbourhoods; acceptance must imply a canonical fixpoint, generated values must round-trip losslessly, TLV acceptance must equal canonicity, and no input may panic or allocate beyond the measured bound.",
+   note="Four genuine findings on the unchanged tree are listed as known findings (tlv non-p2p lengths >= 2^63, DBigSize ignoring the record length, ExtraData rebuilt without unknown records in 14 message types, QueryShortChanIDs zero-length id list at maximum size); 'all byte strings' is covered through the stated neighbourhoods only; lnwire compiles against the cached tlv@v1.4.0 (identical source), only the tlv half sees /repo/tlv edits; allocation constants are measured maxima x2.", ref="§4 C10"),
+})
+
 NOT_YET = "harness not built yet in this round (planned, see DESIGN.md §4)"
 
 def main():
@@ -124,6 +131,7 @@ ENGINES = [
  {"name": "seqmc", "path": "engine/seqmc", "serves_properties": ["C07","C16"], "kind_free_text": "level-synchronous BFS over operation alphabets on a real instance with reference-model oracle hooks"},
  {"name": "vsched", "path": "engine/vsched", "serves_properties": ["C07"], "kind_free_text": "cooperative baton-passing scheduler: one thread runs at a time, scheduling points at lock operations and DB transactions, deadlock detection"},
  {"name": "vsync", "path": "engine/vsync", "serves_properties": ["C07"], "kind_free_text": "drop-in sync.Mutex/RWMutex shim calling into vsched (bound by rewriting one import line of the file under test at check time)"},
+ {"name": "bytemut", "path": "engine/bytemut", "serves_properties": ["C10"], "kind_free_text": "exhaustive byte-level enumerators (all short strings, single-byte replacements, truncations, insertions, splices, BigSize forms)"},
  {"name": "crashdb", "path": "engine/crashdb", "serves_properties": ["C02","C07","C13","C16"], "kind_free_text": "kvdb.Backend wrapper: counts committed write transactions, crash-after-k, failure injection"},
 ]
 if __name__ == "__main__":
